@@ -1,4 +1,4 @@
 SPECIFICATION Spec
 CONSTANTS MaxLen = 6
-INVARIANTS IllegalIsIllegal SimpleIsLegal ReadingsDifferOnlyOnEmptyArgs
+INVARIANTS IllegalIsIllegal SimpleIsLegal ChainIsLegal ReadingsDifferOnlyOnEmptyArgs
 CHECK_DEADLOCK FALSE
